@@ -1,12 +1,12 @@
 #!/bin/sh
 # confirm a seeded change in a scratch worktree: applies, builds, suite passes, demo fails with / passes without.
-# usage: lib/seeded_confirm.sh <ID> <A|B>      (patch /tmp/mut/<ID>.<X>.patch, demo /tmp/mut/<ID>.<X>.demo)
+# usage: lib/seeded_confirm.sh <ID> <A|B>      (patch /work/seeded/<ID>.<X>.patch, demo /work/seeded/<ID>.<X>.demo)
 set -u
 ID=$1; X=$2
-WT=/tmp/mut/$ID
-P=/tmp/mut/$ID.$X.patch
-D=/tmp/mut/$ID.$X.demo
-LOG=/tmp/mut/$ID.$X.confirm.log
+WT=/work/seeded/wt-$ID
+P=/work/seeded/$ID.$X.patch
+D=/work/seeded/$ID.$X.demo
+LOG=/work/seeded/$ID.$X.confirm.log
 : > $LOG
 cd $WT || exit 2
 git checkout -q -- . 
